@@ -42,15 +42,17 @@ class SessionProp(Prop):
     ]
 
     # ---- case construction
+    tables = None     # a mixture: one table drawn per case
+
     def strategy(self, tier):
-        tb = self.table
+        tbs = self.tables or [self.table]
         naddr = self.naddr
         tail = list(self.tail)
 
-        def mk(cfg, pre, ws):
-            ops = G.preamble(cfg, pre) + tb.decode(ws, naddr) + tail
+        def mk(cfg, pre, ti, ws):
+            ops = G.preamble(cfg, pre) + tbs[ti % len(tbs)].decode(ws, naddr) + tail
             return (cfg, ops)
-        return st.builds(mk, G.cfg_strategy(self.profiles), G.pre_strategy(**self.pre_kwargs),
+        return st.builds(mk, G.cfg_strategy(self.profiles), G.pre_strategy(**self.pre_kwargs), st.integers(0, len(tbs) - 1),
                          G.words(self.max_words if tier == "quick" else self.max_words * 2, naddr=naddr))
 
     def exhaustive_specs(self, tier, seed):
@@ -273,9 +275,26 @@ class C09(SessionProp):
     CFGS = [dict(profile=2, version=4, jitter=0.25), dict(profile=3, version=3, jitter=0.25)]
 
     def exhaustive_specs(self, tier, seed):
-        return self.product_specs("q2", self.CFGS, None, self.EX_ALPHA, 5 if tier == "quick" else 7, None, nsplit=2)
+        specs = self.product_specs("q2", self.CFGS, None, self.EX_ALPHA, 5 if tier == "quick" else 7, None, nsplit=2)
+        return specs + [("wrap", i) for i in range(4 if tier == "quick" else 12)]
 
     def run_exhaustive(self, spec, res):
+        if spec[0] == "wrap":
+            # the identifier of an open exchange must stay reserved while the 16-bit counter goes round
+            i = spec[1]
+            cfg = self.CFGS[i % 2]
+            ops = G.preamble({}, dict(window=4, handlers=7, clean=i % 2)) + [("publish", 0, 2), ("publish", 0, 2)]
+            if i % 4 < 2:
+                ops.append(("rx", 0, "PUBREC", 0, 0, 0))          # between PUBREC and PUBCOMP
+            if i % 4 == 3:
+                ops += [("rx", 0, "PUBREC", 1, 0, 0), ("fire", 2)]
+            if i >= 4 and not (i % 2):
+                ops += [("lose", 0, 1), ("build", 0), ("handlers", 0, 7), ("window", 0, 4), ("connect", 0, 0, 0, 0), ("rx", 0, "CONNACK", 0, 1)]
+            ops += [("walk", 0, 65530 + i, 1 + (i // 2) % 2), ("publish", 0, 2), ("publish", 0, 1), ("publish", 0, 2), ("settle", 0)]
+            case = (cfg, ops)
+            res.add("wrap", case, self.check_case(case))
+            res.exhaustive["wrap%d" % i] = 1
+            return res
         pre = G.preamble({}, dict(window=2, handlers=7, clean=0))
         return self.run_product(spec, res, self.CFGS, pre, self.EX_ALPHA, [("settle", 0)])
 
@@ -309,6 +328,7 @@ T_SUB = G.Table([
     (10, G.o_subscribe), (8, G.o_unsubscribe), (8, G.o_suback), (8, G.o_unsuback), (3, G.o_ack_good),
     (4, G.o_window), (3, G.o_fire), (2, G.o_advance_small), (3, G.o_lose_reconnect_persist),
     (3, G.o_lose_reconnect_clean), (1, G.o_lose), (1, G.o_reconnect), (1, G.o_settle), (1, G.o_publish_q12),
+    (2, G.o_disconnect), (1, G.o_inpub),
 ])
 
 
@@ -461,6 +481,7 @@ class C13(SessionProp):
     monitor = staticmethod(M.mon_c13)
     table = T_MIX
     max_words = 45
+    pre_kwargs = dict(keepalives=(0, 0, 0, 7, 60, 2))
     tail = (("settle", 0), ("idle", 5000.0))
     rule = ("Mixture histories (all profiles, both session modes, requests in every state that accepts them, acks, "
             "expiries, losses, reconnects, publish before CONNACK) followed by the broker answering everything and "
@@ -1359,6 +1380,13 @@ class C14(SessionProp):
         [("rx", 0, "PUBLISH", 0, 0, 0)], [("rx", 0, "PUBLISH", 1, 0, 0)], [("rx", 0, "PUBLISH", 2, 0, 0)], [("rx", 0, "PUBREL", 4, 0, 0)],
         [("rx", 0, "PUBREL", 0, 0, 0)], [("rx", 0, "PUBACK", 4, 0, 0)], [("rx", 0, "PUBACK", 0, 0, 0)], [("rx", 0, "PUBREC", 4, 0, 0)],
         [("rx", 0, "PUBREC", 0, 0, 0)], [("rx", 0, "PUBCOMP", 4, 0, 0)], [("rx", 0, "PUBCOMP", 5, 0, 0)],
+        # an operation refused for its arguments has no effect on what is allowed next
+        [("call", 0, "connect", [], {"clientId": "c", "keepalive": 0, "username": ["@str", "u", 65536]}, "reject"), ("connect", 0, 0, 1, 0)],
+        [("call", 0, "connect", [], {"clientId": "c", "keepalive": 0, "willTopic": "w", "willMessage": ["@str", "€", 65538]}, "reject"),
+         ("publish", 0, 1), ("connect", 0, 7, 0, 0)],
+        [("call", 0, "connect", [], {"clientId": "c", "keepalive": 70000}, "reject"), ("connect", 0, 0, 1, 0)],
+        [("call", 0, "publish", ["t", ["@bytes", "00"]], {"qos": 1}, "reject"), ("publish", 0, 1)],
+        [("call", 0, "subscribe", [5], {}, "reject"), ("subscribe", 0, 0, 1, 1)],
     ]
 
     def exhaustive_specs(self, tier, seed):
@@ -1714,6 +1742,44 @@ class C16(SessionProp):
         return res
 
 
+def o_disconnect_then(ad, a, b, c):
+    """disconnect() followed by activity inside the closing interval"""
+    ops = [("disconnect", ad)]
+    if a & 1:
+        ops.append(("publish", ad, b % 3, 0, 0, 0, 0))
+    if a & 2:
+        ops.append(("fire", 1 + (b >> 2) % 3))
+    if a & 4:
+        ops.append(("advance", 8 + c % 6))
+    if a & 8:
+        ops.append(("subscribe", ad, 0, 1, 1))
+    if a & 16:
+        ops.append(("lose", ad, c % 3))
+    return ops
+
+
+T_CLOSE = G.Table([
+    (8, G.o_publish), (3, G.o_subscribe), (2, G.o_unsubscribe), (4, G.o_ack_good), (3, G.o_pubrec), (6, o_disconnect_then),
+    (3, G.o_fire), (3, G.o_advance), (2, G.o_lose), (3, G.o_reconnect), (1, G.o_inpub), (1, G.o_inpub_q2), (1, G.o_window),
+    (1, G.o_resume_with_publish),
+])
+ALL_TABLES = [T_MIX, T_PUB, T_PUBWIN, T_Q2, T_SUB, T_RETRY, T_KA, T_PERS, T_CLEAN, T_HS, T_INB, T_CLOSE]
+C13.tables = ALL_TABLES
+C18.tables = [T_CLOSE, T_CLOSE, T_CLOSE] + ALL_TABLES
+
+
+class C02live(SessionProp):
+    """the live-session part of C02 (run as extra shards of the C02 check)"""
+    id = None
+    monitor = staticmethod(M.mon_wire)
+    tables = [T_RETRY, T_MIX, T_Q2, T_PERS, T_SUB, T_CLOSE]
+    table = T_MIX
+    max_words = 35
+    quick_examples = 600
+    thorough_examples = 15000
+    pre_kwargs = dict(keepalives=(0, 0, 7))
+
+
 PROPS = {}
 PROPS_BY_ID = {}
 
@@ -1726,6 +1792,7 @@ def _reg(cls):
     return p
 
 
+_reg(C02live)
 _reg(C05)
 _reg(C10)
 _reg(C09)
